@@ -18,8 +18,9 @@ XiOf(g, N) ==
   CASE g = "uni" -> Tup([k \in 1..N + 1 |-> Q(k - 1, N)])
     [] g = "geo" -> LET tot == Pow(R(2), N)[1] - 1 IN Tup([k \in 1..N + 1 |-> Q(Pow(R(2), k - 1)[1] - 1, tot)])
 Space == [L : 2..4, N : 1..(IF Thorough THEN 5 ELSE 3), g : {"uni", "geo"}, refine : 1..(IF Thorough THEN 3 ELSE 2), T : {One, R(2)}, t0 : {Zero, Q(1, 2)}, seed : {Seed},
-          hz : {"num", "fT"}]      \* fT: the horizon is a decision variable (FreeTime) whose value at the probe is T: same predictions
-Init == sc \in Space
+          hz : {"num", "fT"},
+          incF : BOOLEAN, incL : BOOLEAN]      \* include_first / include_last of the path constraint      \* fT: the horizon is a decision variable (FreeTime) whose value at the probe is T: same predictions
+Init == sc \in {s \in Space : (~s.incF \/ ~s.incL) => (s.hz = "num" /\ s.T = One)}
 Next == UNCHANGED sc
 RECURSIVE MemberCoef(_, _, _, _, _)
 \* coefficients of chain member i (0 = highest) : i-fold derivative in physical time
@@ -38,7 +39,14 @@ Emit ==
         control |-> Tup([i \in 1..sc.L |-> Tup([j \in 1..Len(ctl) |-> val(i - 1, ctl[j])])]),
         refined |-> Tup([i \in 1..sc.L |-> Tup([j \in 1..Len(pts) |-> val(i - 1, pts[j])])]),
         \* path constraint x1 + x2 <= 9 imposed at every refined point; boundary constraints at t0 and tf
-        path |-> Tup([j \in 1..Len(pts) |-> Sub(R(9), Add(val(0, pts[j]), val(1, pts[j])))]),
+        \* (without the first / last point when include_first / include_last say so)
+        path |-> LET all == Tup([j \in 1..Len(pts) |-> Sub(R(9), Add(val(0, pts[j]), val(1, pts[j])))])
+                     lo == IF sc.incF THEN 1 ELSE 2
+                     hi == IF sc.incL THEN Len(pts) ELSE Len(pts) - 1
+                 IN Tup([j \in 1..(hi - lo + 1) |-> all[lo + j - 1]]),
+        \* a second path constraint with next():  next(x1) - x1 <= 6  at the nodes 0..N-1 (the instance at the final node would
+        \* reach outside the horizon); it must not change where the first one is imposed
+        step |-> Tup([k \in 1..sc.N |-> Sub(R(6), Sub(val(0, ctl[k + 1]), val(0, ctl[k])))]),
         bnd0 |-> Sub(val(0, Zero), Q(1, 2)), bndf |-> Sub(val(1, One), R(-1)),
         \* grid='inf' constraints on two chain members (different numbers of coefficients, different constant terms):
         \*   x1 + 1/2 <= 7    and    -6 <= x2 - 1/2 <= 3/2
@@ -47,7 +55,20 @@ Emit ==
         inf |-> [m0 |-> Tup([j \in 1..Len(mem(0)) |-> Sub(R(7), Add(mem(0)[j], Q(1, 2)))]),
                  m1hi |-> Tup([j \in 1..Len(mem(1)) |-> Sub(Q(3, 2), Sub(mem(1)[j], Q(1, 2)))]),
                  m1lo |-> Tup([j \in 1..Len(mem(1)) |-> Sub(Sub(mem(1)[j], Q(1, 2)), R(-6))])],
-        greville |-> Tup([i \in 1..sc.N + d |-> Add(sc.t0, Mul(sc.T, Greville(xi, d)[i]))])]))
+        greville |-> Tup([i \in 1..sc.N + d |-> Add(sc.t0, Mul(sc.T, Greville(xi, d)[i]))]),
+        \* objective:  at_tf(x1)^2 + sum(u^2) + integral(x2, grid='control')   (Mayer term, node sum over the N intervals,
+        \* interval-length weighted left sum) -- C05 for SplineMethod
+        \*            + integral(x1 * x2): SplineMethod has no integrator; its quadrature is the composite open Newton-Cotes
+        \*              (Milne) rule with two panels per control interval,  H/6 (2 f1 - f2 + 2 f3 + 2 f5 - f6 + 2 f7)  at the eighths
+        obj |-> LET p8 == SamplePoints(xi, 7)
+                    f(k, j) == Mul(val(0, p8[(k - 1) * 8 + j + 1]), val(1, p8[(k - 1) * 8 + j + 1]))
+                    milne(k) == Mul(Mul(Mul(sc.T, Sub(ctl[k + 1], ctl[k])), Q(1, 6)),
+                                    Add(Add(Sub(Mul(R(2), f(k, 1)), f(k, 2)), Mul(R(2), f(k, 3))),
+                                        Add(Sub(Mul(R(2), f(k, 5)), f(k, 6)), Mul(R(2), f(k, 7)))))
+                IN Add(Add(Add(Mul(val(0, One), val(0, One)),
+                               SumSeq(Tup([k \in 1..sc.N |-> Mul(val(d, ctl[k]), val(d, ctl[k]))]))),
+                           SumSeq(Tup([k \in 1..sc.N |-> Mul(Mul(sc.T, Sub(ctl[k + 1], ctl[k])), val(1, ctl[k]))]))),
+                       SumSeq(Tup([k \in 1..sc.N |-> milne(k)])))]))
 Post == /\ ndJsonSerialize(IOEnv.OUT_FILE, TLCGet(1)) /\ PrintT(<<"emitted", Len(TLCGet(1))>>)
 ASSUME TLCSet(1, <<>>)
 =============================================================================
